@@ -1,0 +1,18 @@
+//! Verification hooks (only compiled with `--cfg libp2p_verif`): lets the harness construct the
+//! handler events of this crate so that [`Behaviour`](crate::Behaviour) can be driven standalone
+//! through `NetworkBehaviour`. The handler event enum itself is nameable as
+//! `THandlerOutEvent<Behaviour<C>>`; only the id constructor is private.
+
+use crate::InboundRequestId;
+
+/// The id a connection handler would allocate for its n-th inbound request.
+pub fn inbound_request_id(n: u64) -> InboundRequestId {
+    InboundRequestId(n)
+}
+
+/// The request id carried by a behaviour-to-handler message (`pub(crate)` field).
+pub fn outbound_message_id<C: crate::Codec>(
+    m: &crate::handler::OutboundMessage<C>,
+) -> crate::OutboundRequestId {
+    m.request_id
+}
